@@ -271,6 +271,24 @@ def extract_decoder(repo: Repo, rel="cell.py", qual="Cell._from_storage") -> Dec
                                 for x, y in ((n.left, n.right), (n.right, n.left)):
                                     if U(x) == flags_var and isinstance(try_const(y, env), int):
                                         masks = try_const(y, env)
+                        # W * sum(1 for m in (M1, M2, ...) if flags & m): one skip of W bytes per listed bit that is set
+                        if isinstance(b, ast.Call) and call_name(b) == "sum" and len(b.args) == 1 and isinstance(b.args[0], (ast.GeneratorExp, ast.ListComp)) \
+                                and len(b.args[0].generators) == 1 and try_const(b.args[0].elt, env) == 1:
+                            g = b.args[0].generators[0]
+                            ms = try_const(g.iter, env)
+                            tst = g.ifs[0] if len(g.ifs) == 1 else None
+                            if isinstance(ms, tuple) and all(isinstance(m, int) and m > 0 and m & (m - 1) == 0 for m in ms) and isinstance(g.target, ast.Name) \
+                                    and isinstance(tst, ast.BinOp) and isinstance(tst.op, ast.BitAnd) and {U(tst.left), U(tst.right)} == {flags_var, g.target.id}:
+                                # the same as one ``if flags & m: offset += W`` per listed bit, in the order listed, here
+                                for m in ms:
+                                    syn = ast.If(test=ast.BinOp(left=ast.Name(id=flags_var, ctx=ast.Load()), op=ast.BitAnd(), right=ast.Constant(m)),
+                                                 body=[ast.AugAssign(target=ast.Name(id=off, ctx=ast.Store()), op=ast.Add(), value=ast.Constant(w))], orelse=[])
+                                    ast.copy_location(syn, s)
+                                    ast.fix_missing_locations(syn)
+                                    for x in ast.walk(syn):
+                                        x._file = getattr(s, "_file", None)
+                                    handle_if(syn)
+                                return True
                         is_pop = "count" in U(b) or "bit_count" in U(b)
                         if masks is not None and is_pop:
                             bits = [1 << i for i in range(32) if masks >> i & 1]
@@ -415,6 +433,7 @@ class KindBranch:
     value_expr: object
     node: object
     returns_none: bool = False
+    type_conds: list = field(default_factory=list)  # conditions (locals substituted) that choose between type bytes
 
 
 @dataclass
@@ -513,13 +532,18 @@ def extract_encoder(repo: Repo, rel="cell.py", qual="Cell._to_buffer") -> Encode
         if isinstance(t, ast.Call) and call_name(t) == "isinstance" and len(t.args) == 2:
             cls = U(t.args[1])
         kb = KindBranch(cls or U(t), None, 0, None, None, "", None, node)
+        from .symexec import subst as _subst
+        local_env = {}
         for b in node.body:
+            if isinstance(b, ast.Assign) and len(b.targets) == 1 and isinstance(b.targets[0], ast.Name) and U(b.targets[0]) not in (enc.flags_var, type_var, payload_var):
+                local_env[b.targets[0].id] = _subst(b.value, local_env)
             if isinstance(b, ast.Assign) and len(b.targets) == 1:
                 tg = U(b.targets[0])
                 if tg == enc.flags_var:
                     kb.flags = try_const(b.value, env)
                 elif tg == type_var:
                     if isinstance(b.value, ast.IfExp):
+                        kb.type_conds.append(_subst(b.value.test, local_env))
                         kb.type_expr = U(b.value.body) + "|" + U(b.value.orelse)
                     else:
                         kb.type_expr = U(b.value)
@@ -538,6 +562,8 @@ def extract_encoder(repo: Repo, rel="cell.py", qual="Cell._to_buffer") -> Encode
                 types = [U(x.value) for x in ast.walk(b) if isinstance(x, ast.Assign) and U(x.targets[0]) == type_var]
                 if types:
                     kb.type_expr = "|".join(types)
+                    kb.type_conds += [_subst(x.test, local_env) for x in ast.walk(b) if isinstance(x, ast.If) and any(
+                        isinstance(y, ast.Assign) and U(y.targets[0]) == type_var for y in ast.walk(x))]
         enc.kinds.append(kb)
         if len(node.orelse) == 1 and isinstance(node.orelse[0], ast.If):
             node = node.orelse[0]
